@@ -14,6 +14,7 @@ import Pyc.Driver.Collateral
 import Pyc.Driver.Ids
 import Pyc.Driver.Witness
 import Pyc.Driver.Redeemers
+import Pyc.Driver.WitnessCodec
 open Lean Pyc.Driver
 
 /-- dispatch on the prefix of `op` -/
@@ -35,6 +36,7 @@ def dispatch (op : String) (j : Json) : R Json :=
   else if op == "id" || op == "script.gate" then handleIds op j
   else if op.startsWith "witness." then handleWitness op j
   else if op == "ranks" || op == "views" || op.startsWith "sdh." || op.startsWith "rd." then handleRedeemers op j
+  else if op.startsWith "wc." then handleWitnessCodec op j
   else throw s!"unknown op {op}"
 
 def handleLine (line : String) : String :=
